@@ -288,6 +288,37 @@ func c04Describe(cl c04Clauses) string {
 // ---------------------------------------------------------------------------
 // forest generator
 
+// c04Draw builds every probability out of fair coin flips: rapid's integer
+// generators are deliberately biased towards small values (IntRange(0,99) < 2
+// comes up 20 % of the time), which would turn "2 % chance" into 20 %.
+type c04Draw struct{ t *rapid.T }
+
+func (d c04Draw) bits(label string, k int) int {
+	x := 0
+	for i := 0; i < k; i++ {
+		x <<= 1
+		if rapid.Bool().Draw(d.t, label) {
+			x |= 1
+		}
+	}
+	return x
+}
+
+// n returns a (nearly) uniform value in [0, n), n <= 1024.
+func (d c04Draw) n(label string, n int) int { return d.bits(label, 12) * n >> 12 }
+
+// coin is true with probability 2^-k (false is the simple, shrunk outcome).
+func (d c04Draw) coin(label string, k int) bool {
+	for i := 0; i < k; i++ {
+		if !rapid.Bool().Draw(d.t, label) {
+			return false
+		}
+	}
+	return true
+}
+
+func c04From[T any](d c04Draw, label string, s []T) T { return s[d.n(label, len(s))] }
+
 var (
 	c04IssNormal = []int64{-86400, -3600, -60, -2, -1, 0}
 	c04IssOdd    = []int64{1, 2, 3600}
@@ -296,36 +327,46 @@ var (
 )
 
 func c04Gen(t *rapid.T) c04Case {
-	chaos := rapid.SampledFrom([]int{0, 2, 4, 10}).Draw(t, "chaos")
-	odd := func(label string) bool {
-		return chaos > 0 && rapid.IntRange(0, 99).Draw(t, label) < chaos
-	}
-	pick := func(label string, n int) int { return rapid.IntRange(0, n-1).Draw(t, label) }
+	d := c04Draw{t}
+	// probability of each single inconsistency: never, 1.6 %, 3.1 %, 6.3 %, 12.5 %
+	chaos := c04From(d, "chaos", []int{0, 6, 6, 5, 5, 4, 3})
+	odd := func(label string) bool { return chaos > 0 && d.coin(label, chaos) }
+	pick := d.n
 
 	c := c04Case{KeySeed: rapid.Uint64Range(1, 1<<40).Draw(t, "keyseed")}
-	nR := rapid.IntRange(1, 3).Draw(t, "roots")
-	nI := rapid.SampledFrom([]int{0, 1, 1, 1, 2, 2, 2, 3, 3, 4}).Draw(t, "inters")
-	nL := rapid.IntRange(1, 4).Draw(t, "leaves")
+	nR := 1 + pick("roots", 3)
+	nI := c04From(d, "inters", []int{1, 1, 1, 1, 1, 2, 2, 2, 2, 2, 3, 3, 3, 4, 4, 4})
+	if d.coin("noInters", 4) {
+		nI = 0 // leaves can only hang directly under roots
+	}
+	nL := 1 + pick("leaves", 4)
 	var rootPos, interPos, leafPos []int
 
-	window := func(s *c04Cert) {
-		s.Iss = c04T0 + rapid.SampledFrom(c04IssNormal).Draw(t, "iss")
-		s.Exp = c04T0 + rapid.SampledFrom(c04ExpNormal).Draw(t, "exp")
+	// half of the forests have nested windows (root widest, leaf narrowest, shared bounds possible) as
+	// issuance produces them; the others draw all bounds independently (children may outlive parents)
+	nested := d.coin("nested", 1)
+	window := func(s *c04Cert, level int) {
+		s.Iss = c04T0 + c04From(d, "iss", c04IssNormal)
+		s.Exp = c04T0 + c04From(d, "exp", c04ExpNormal)
+		if nested {
+			s.Iss = c04T0 + c04From(d, "issN", [][]int64{{-86400, -86400, -3600}, {-3600, -3600, -60}, {-60, -2, -1, 0}}[level])
+			s.Exp = c04T0 + c04From(d, "expN", [][]int64{{86400, 86400, 3600}, {3600, 3600, 60}, {60, 2, 1}}[level])
+		}
 		if odd("oddIss") {
-			s.Iss = c04T0 + rapid.SampledFrom(c04IssOdd).Draw(t, "issOdd")
+			s.Iss = c04T0 + c04From(d, "issOdd", c04IssOdd)
 		}
 		if odd("oddExp") {
 			switch pick("expOddKind", 3) {
 			case 0:
-				s.Exp = c04T0 + rapid.SampledFrom(c04ExpOdd).Draw(t, "expOdd")
+				s.Exp = c04T0 + c04From(d, "expOdd", c04ExpOdd)
 			case 1:
 				s.Exp = s.Iss // empty window
 			default:
 				s.Exp = s.Iss - 1 // inverted window
 			}
 		}
-		if rapid.IntRange(0, 49).Draw(t, "far") == 0 {
-			if rapid.Bool().Draw(t, "farIss") {
+		if d.coin("far", 6) {
+			if d.coin("farIss", 1) {
 				s.Iss = 0
 			} else {
 				s.Exp = 4102444800
@@ -335,13 +376,13 @@ func c04Gen(t *rapid.T) c04Case {
 	names := func(s *c04Cert, leafish bool) {
 		n := 0
 		if leafish {
-			n = rapid.SampledFrom([]int{0, 1, 1, 1, 2, 2, 3}).Draw(t, "nnames")
-		} else if rapid.IntRange(0, 5).Draw(t, "caNamed") == 0 {
+			n = c04From(d, "nnames", []int{0, 1, 1, 1, 2, 2, 3})
+		} else if d.coin("caNamed", 3) {
 			n = 1
 		}
 		for i := 0; i < n; i++ {
-			if rapid.Bool().Draw(t, "commonName") {
-				s.Names = append(s.Names, rapid.SampledFrom([]int{0, 1, 2, 3, 4}).Draw(t, "name"))
+			if d.coin("commonName", 1) {
+				s.Names = append(s.Names, pick("name", 5))
 			} else {
 				s.Names = append(s.Names, pick("name", len(c04Pool)))
 			}
@@ -351,7 +392,7 @@ func c04Gen(t *rapid.T) c04Case {
 	finish := func(s *c04Cert, idx int, typ int) {
 		s.Type = typ
 		if odd("oddType") {
-			s.Type = rapid.SampledFrom(types).Draw(t, "type")
+			s.Type = c04From(d, "type", types)
 		}
 		if odd("sharedKey") && idx > 0 {
 			s.Key = c.Certs[pick("keyOf", idx)].Key
@@ -371,14 +412,14 @@ func c04Gen(t *rapid.T) c04Case {
 			orig.Names = append([]int(nil), s.Names...)
 			switch pick("staleField", 5) {
 			case 0:
-				s.Type = rapid.SampledFrom(types).Draw(t, "staleType")
+				s.Type = c04From(d, "staleType", types)
 			case 1:
-				s.Iss += rapid.SampledFrom([]int64{-1, 1, 3600}).Draw(t, "staleIss")
+				s.Iss += c04From(d, "staleIss", []int64{-1, 1, 3600})
 				if s.Iss < 0 {
 					s.Iss = 0
 				}
 			case 2:
-				s.Exp += rapid.SampledFrom([]int64{-1, 1, 3600}).Draw(t, "staleExp")
+				s.Exp += c04From(d, "staleExp", []int64{-1, 1, 3600})
 				if s.Exp < 0 {
 					s.Exp = 0
 				}
@@ -396,7 +437,7 @@ func c04Gen(t *rapid.T) c04Case {
 	for i := 0; i < nR; i++ {
 		idx := len(c.Certs)
 		s := c04Cert{Key: idx, Parent: c04ParentZero, Signer: idx}
-		window(&s)
+		window(&s, 0)
 		names(&s, false)
 		if odd("rootHasParent") && idx > 0 {
 			s.Parent = pick("rootParent", idx)
@@ -420,9 +461,9 @@ func c04Gen(t *rapid.T) c04Case {
 			s.Parent = pick("linkTo", idx)
 		}
 		if odd("junkParent") {
-			s.Parent = rapid.SampledFrom([]int{c04ParentZero, c04ParentJunk}).Draw(t, "junk")
+			s.Parent = c04From(d, "junk", []int{c04ParentZero, c04ParentJunk})
 		}
-		window(&s)
+		window(&s, 1)
 		names(&s, false)
 		finish(&s, idx, int(Intermediate))
 		c.Certs = append(c.Certs, s)
@@ -444,9 +485,9 @@ func c04Gen(t *rapid.T) c04Case {
 			s.Parent = pick("linkTo", idx)
 		}
 		if odd("junkParent") {
-			s.Parent = rapid.SampledFrom([]int{c04ParentZero, c04ParentJunk}).Draw(t, "junk")
+			s.Parent = c04From(d, "junk", []int{c04ParentZero, c04ParentJunk})
 		}
-		window(&s)
+		window(&s, 2)
 		names(&s, true)
 		finish(&s, idx, int(Leaf))
 		c.Certs = append(c.Certs, s)
@@ -454,16 +495,16 @@ func c04Gen(t *rapid.T) c04Case {
 	}
 	n := len(c.Certs)
 
-	// trust store: a random subset of ALL certificates, with position-dependent density
-	dens := rapid.SampledFrom([][3]int{{85, 50, 20}, {100, 0, 0}, {60, 60, 60}, {95, 90, 10}, {100, 100, 100}}).Draw(t, "storeDensity")
+	// trust store: a random subset of ALL certificates, with position-dependent density (percent)
+	dens := c04From(d, "storeDensity", [][3]int{{85, 50, 20}, {100, 0, 0}, {60, 60, 60}, {95, 90, 10}, {100, 100, 100}})
 	for i := 0; i < n; i++ {
-		d := dens[2]
+		p := dens[2]
 		if i < nR {
-			d = dens[0]
+			p = dens[0]
 		} else if i < nR+nI {
-			d = dens[1]
+			p = dens[1]
 		}
-		if rapid.IntRange(0, 99).Draw(t, "inStore") < d {
+		if p == 100 || (p > 0 && pick("inStore", 100) < p) {
 			c.Store = append(c.Store, i)
 		}
 	}
@@ -477,22 +518,22 @@ func c04Gen(t *rapid.T) c04Case {
 		}
 		return -1
 	}
-	nSteps := rapid.IntRange(3, 10).Draw(t, "nsteps")
+	nSteps := 3 + pick("nsteps", 8)
 	for k := 0; k < nSteps; k++ {
 		var st c04Step
 		st.B = -1
 		st.Name = c04NameNone
 		l := leafPos[pick("leaf", len(leafPos))]
-		if rapid.IntRange(0, 9).Draw(t, "anyLeaf") == 0 {
+		if d.coin("anyLeaf", 4) {
 			l = pick("leafAny", n)
 		}
 		i := parentOf(l)
 		r := parentOf(i)
-		switch w := rapid.IntRange(0, 99).Draw(t, "op"); {
+		switch w := pick("op", 100); {
 		case w < 10:
 			st.Op = c04OpAdd
 			st.A = pick("addAny", n)
-			if cand := []int{i, r}; rapid.IntRange(0, 9).Draw(t, "addChain") < 7 {
+			if cand := []int{i, r}; pick("addChain", 10) < 7 {
 				if x := cand[pick("addWhich", 2)]; x >= 0 {
 					st.A = x
 				}
@@ -501,26 +542,26 @@ func c04Gen(t *rapid.T) c04Case {
 			st.Op = c04OpVerifyParent
 			st.A = pick("child", n)
 			st.B = pick("parent", n)
-			if p := parentOf(st.A); p >= 0 && rapid.IntRange(0, 9).Draw(t, "vpNamed") < 6 {
+			if p := parentOf(st.A); p >= 0 && pick("vpNamed", 10) < 6 {
 				st.B = p
 			}
 		default:
 			st.Op = c04OpVerifyLeaf
 			st.A = l
-			switch pw := rapid.IntRange(0, 99).Draw(t, "pres"); {
+			switch pw := pick("pres", 100); {
 			case pw < 28 || (i < 0 && pw < 70):
 			case pw < 70:
 				st.B = i
-			case pw < 85:
+			case pw < 82:
 				st.B = pick("presAny", n)
 			default:
 				st.B = i
-				st.Mut = 1 + rapid.IntRange(0, 1500).Draw(t, "mutBit")
+				st.Mut = 1 + pick("mutBit", 8*len(c04MutOffsets(200)))
 			}
-			st.Own = rapid.Bool().Draw(t, "own")
-			switch nw := rapid.IntRange(0, 99).Draw(t, "nameKind"); {
+			st.Own = d.coin("own", 1)
+			switch nw := pick("nameKind", 100); {
 			case nw < 35:
-			case nw < 80 && len(c.Certs[l].Names) > 0:
+			case nw < 85 && len(c.Certs[l].Names) > 0:
 				st.Name = c.Certs[l].Names[pick("ownName", len(c.Certs[l].Names))]
 			case nw < 97:
 				st.Name = pick("poolName", len(c04Pool))
@@ -535,14 +576,10 @@ func c04Gen(t *rapid.T) c04Case {
 				members = append(members, r)
 			}
 			st.Sec = c04T0
-			switch tw := rapid.IntRange(0, 99).Draw(t, "clock"); {
+			switch tw := pick("clock", 100); {
 			case tw < 22:
-			case tw < 40: // start of the common window
-				for _, m := range members {
-					if c.Certs[m].Iss > st.Sec || m == l {
-						st.Sec = c.Certs[m].Iss
-					}
-				}
+			case tw < 40: // first instant of the common window
+				st.Sec = c.Certs[l].Iss
 				for _, m := range members {
 					if c.Certs[m].Iss > st.Sec {
 						st.Sec = c.Certs[m].Iss
@@ -556,11 +593,14 @@ func c04Gen(t *rapid.T) c04Case {
 					}
 				}
 				st.Sec--
-				if rapid.Bool().Draw(t, "lastNs") {
+				if d.coin("lastNs", 1) {
 					st.Nsec = 999999999
 				}
 			default:
 				m := c.Certs[members[pick("member", len(members))]]
+				if d.coin("leafBound", 2) {
+					m = c.Certs[l]
+				}
 				switch pick("bound", 7) {
 				case 0:
 					st.Sec = m.Iss - 1
@@ -581,7 +621,7 @@ func c04Gen(t *rapid.T) c04Case {
 			if st.Sec < 1 {
 				st.Sec, st.Nsec = 1, 0
 			}
-			st.Zone = rapid.SampledFrom([]int{0, 0, 1, 2}).Draw(t, "zone")
+			st.Zone = c04From(d, "zone", []int{0, 0, 1, 2})
 		}
 		c.Steps = append(c.Steps, st)
 	}
@@ -692,7 +732,7 @@ func c04SelfTest(t *testing.T) {
 
 func TestVerifC04Forest(t *testing.T) {
 	c04SelfTest(t)
-	vlib.Drive(t, vlib.Spec[c04Case]{ID: "C04", Quick: 8000, Gen: c04Gen, Run: c04Run})
+	vlib.Drive(t, vlib.Spec[c04Case]{ID: "C04", Quick: 40000, Gen: c04Gen, Run: c04Run})
 }
 
 // ---------------------------------------------------------------------------
@@ -928,41 +968,59 @@ func c04APIRun(c c04APICase, v *vlib.Verdict) {
 }
 
 func c04APIGen(t *rapid.T) c04APICase {
+	d := c04Draw{t}
 	s := int64(time.Second)
-	atGen := func(label string) c04At {
-		a := c04At{}
-		if rapid.IntRange(0, 3).Draw(t, label+"Rel") == 0 {
-			a.Rel = 1
-			a.D = rapid.SampledFrom([]int64{-3600 * s, -2 * s, -s, -s / 2, -1, 0, s}).Draw(t, label+"DExp")
-		} else {
-			a.D = rapid.SampledFrom([]int64{-s, -1, 0, 0, 1, s / 2, s, 2 * s, 3600 * s, 86400 * s}).Draw(t, label+"DIss")
+	day := 86400 * s
+	// issuance instant relative to the parent: 1 in 8 outside its window (refused by design), otherwise
+	// inside, at or near a bound; span is the parent's (unclamped) lifetime
+	atGen := func(label string, span int64) c04At {
+		if d.coin(label+"Outside", 3) {
+			return c04From(d, label+"Out", []c04At{{0, -s}, {0, -1}, {1, 0}, {1, s}})
 		}
-		return a
+		var in []c04At
+		for _, x := range []int64{0, 0, 1, s / 2, s, 2 * s, 3600 * s, day} {
+			if x < span {
+				in = append(in, c04At{0, x})
+			}
+		}
+		for _, x := range []int64{1, s / 2, s, 2 * s, 3600 * s} {
+			if x <= span {
+				in = append(in, c04At{1, -x})
+			}
+		}
+		return c04From(d, label+"In", in)
 	}
 	durGen := func(label string) int64 {
-		return rapid.SampledFrom([]int64{1, s / 2, s, s + 1, 2 * s, 60 * s, 3600 * s, 86400 * s, 366 * 86400 * s, 10 * 366 * 86400 * s}).Draw(t, label)
+		if d.coin(label+"Short", 2) {
+			return c04From(d, label, []int64{1, s / 2, s, s + 1, 2 * s})
+		}
+		return c04From(d, label, []int64{60 * s, 3600 * s, day, 366 * day, 10 * 366 * day})
 	}
 	c := c04APICase{
 		Seed:     rapid.Uint64Range(1, 1<<40).Draw(t, "seed"),
-		PubInter: rapid.IntRange(0, 3).Draw(t, "pubInter") == 0,
-		InterAt:  atGen("inter"),
+		PubInter: d.coin("pubInter", 2),
 		InterDur: durGen("interDur"),
-		LeafAt:   atGen("leaf"),
 		LeafDur:  durGen("leafDur"),
-		Reparse:  rapid.SampledFrom([]int{0, 7, 7, 1, 2, 4, 3, 5, 6}).Draw(t, "reparse"),
-		Layout:   rapid.IntRange(0, 2).Draw(t, "layout"),
+		Reparse:  c04From(d, "reparse", []int{0, 7, 7, 1, 2, 4, 3, 5, 6}),
+		Layout:   d.n("layout", 3),
 	}
-	for i, n := 0, rapid.IntRange(0, 3).Draw(t, "nnames"); i < n; i++ {
-		c.Names = append(c.Names, rapid.IntRange(0, len(c04Pool)-1).Draw(t, "name"))
+	c.InterAt = atGen("inter", 5*365*day)
+	span := c.InterDur
+	if c.PubInter {
+		span = 366 * day
 	}
-	for i, n := 0, rapid.IntRange(2, 8).Draw(t, "nprobes"); i < n; i++ {
-		p := c04Probe{Ref: rapid.SampledFrom([]int{0, 0, 0, 1, 1, 2}).Draw(t, "ref"), Kind: rapid.IntRange(0, 8).Draw(t, "kind"), Name: c04NameNone}
-		switch nk := rapid.IntRange(0, 9).Draw(t, "nameKind"); {
+	c.LeafAt = atGen("leaf", span)
+	for i, n := 0, d.n("nnames", 4); i < n; i++ {
+		c.Names = append(c.Names, d.n("name", len(c04Pool)))
+	}
+	for i, n := 0, 2+d.n("nprobes", 7); i < n; i++ {
+		p := c04Probe{Ref: c04From(d, "ref", []int{0, 0, 0, 0, 1, 2}), Kind: d.n("kind", 9), Name: c04NameNone}
+		switch nk := d.n("nameKind", 10); {
 		case nk < 5:
 		case nk < 8 && len(c.Names) > 0:
-			p.Name = c.Names[rapid.IntRange(0, len(c.Names)-1).Draw(t, "own")]
+			p.Name = c.Names[d.n("own", len(c.Names))]
 		default:
-			p.Name = rapid.IntRange(0, len(c04Pool)-1).Draw(t, "pool")
+			p.Name = d.n("pool", len(c04Pool))
 		}
 		c.Probes = append(c.Probes, p)
 	}
@@ -971,7 +1029,7 @@ func c04APIGen(t *rapid.T) c04APICase {
 
 func TestVerifC04Issued(t *testing.T) {
 	c04SelfTest(t)
-	vlib.Drive(t, vlib.Spec[c04APICase]{ID: "C04", Quick: 3000, Gen: c04APIGen, Run: c04APIRun})
+	vlib.Drive(t, vlib.Spec[c04APICase]{ID: "C04", Quick: 12000, Gen: c04APIGen, Run: c04APIRun})
 }
 
 // ---------------------------------------------------------------------------
@@ -1238,7 +1296,6 @@ func TestVerifC04BitFlips(t *testing.T) {
 			}
 		}
 	}
-	rec.SetRequested(idx)
 	rec.SetExhaustive(true)
 	rec.Extra("enumerated", fmt.Sprintf("every single-bit flip of the serialised leaf, intermediate and root of %d verifying chains (%d bits) plus raw overwrites of every fixed field, each in 3-5 store/presentation layouts", chains, bits))
 }
@@ -1372,7 +1429,6 @@ func TestVerifC04Substitutions(t *testing.T) {
 			}
 		}
 	}
-	rec.SetRequested(idx)
 	rec.SetExhaustive(true)
 	rec.Extra("enumerated", fmt.Sprintf("%d forests: every single-field substitution (type, issuer link/key, public key, names, each time bound) of leaf, intermediate and root of %d base chains, re-signed and stale-signed, in place and side by side, x 5 trust stores", idx, chains))
 }
